@@ -112,7 +112,8 @@ func getDb() *dbT {
 	return theDb
 }
 
-// put stores the valuation as the only row of both tables.
+// put makes the valuation the only row of both tables (one transaction
+// deletes the previous valuation and stores the new one).
 func (d *dbT) put(row []*val) {
 	d.k++
 	var rb core.RecordBuilder
@@ -123,15 +124,12 @@ func (d *dbT) put(row []*val) {
 	rec := rb.Build()
 	ut := d.db.NewUpdateTran()
 	for _, tb := range tables {
+		if d.k > 1 {
+			if n := qry.DoAction(d.th, ut, "delete "+tb); n != 1 {
+				panic(fmt.Sprintf("qexpr: delete %s removed %d rows", tb, n))
+			}
+		}
 		ut.Output(d.th, tb, rec)
-	}
-	ut.Commit()
-}
-
-func (d *dbT) clear() {
-	ut := d.db.NewUpdateTran()
-	for _, tb := range tables {
-		qry.DoAction(d.th, ut, "delete "+tb)
 	}
 	ut.Commit()
 }
@@ -210,7 +208,11 @@ func (lf langFn) call(args ...core.Value) lres {
 	}
 	var v core.Value
 	o := catch(func() {
-		v = langTh.Call(lf.fn, args...)
+		if len(args) < 5 {
+			v = langTh.Call(lf.fn, args...)
+		} else {
+			v = langTh.PushCall(lf.fn, nil, &core.ArgSpec{Nargs: byte(len(args))}, args...)
+		}
 	})
 	if o.raised {
 		// a panic leaves the interpreter's value stack where it was: new thread
@@ -348,9 +350,35 @@ type walkT struct {
 	row        map[string]*val
 	documented bool // "" ordered against a boolean or number
 	lossy      bool // F7: integer with > 16 digits compared with a close decimal
-	minusMin   bool // F2 through a - b evaluated as a + (-b): see c25_test.go
+	subAsAdd   bool // known finding subtraction-as-add-negation
 	divFirst   bool // known finding const-numerator-division
 	negPrefix  bool // known finding negative-number-packed-prefix-order
+	bitShort   bool // known finding bitop-short-circuit
+}
+
+var allOnes = core.Int64Val(0xffffffff)
+
+// bitop: & and | - left operand first, to see the evaluator's early exit.
+func (w *walkT) bitop(n *node) (core.Value, bool) {
+	l, ok := w.eval(n.kids[0])
+	if !ok {
+		return nil, false
+	}
+	absorbing := core.Value(core.Zero)
+	if n.op == "|" {
+		absorbing = allOnes
+	}
+	early := l.Type() == types.Number && l.Equal(absorbing) && n.hasCol()
+	r, ok := w.eval(n.kids[1])
+	if !ok {
+		w.bitShort = w.bitShort || early
+		return nil, false
+	}
+	v, ok := w.call(binTemplates[n.op], l, r)
+	if early && (!ok || !sameValue(v, absorbing)) {
+		w.bitShort = true
+	}
+	return v, ok
 }
 
 // negPrefixPair: two negative numbers of which one packed form is a proper
@@ -474,7 +502,7 @@ var binTemplates = map[string]string{"is": "x0 is x1", "isnt": "x0 isnt x1", "<"
 func (w *walkT) eval(n *node) (core.Value, bool) {
 	switch n.op {
 	case "const":
-		return n.c.v, true
+		return n.c.cv, true
 	case "col":
 		return w.row[n.col].v, true
 	case "and", "or":
@@ -482,19 +510,46 @@ func (w *walkT) eval(n *node) (core.Value, bool) {
 		if n.op == "or" {
 			stop = core.True
 		}
-		for _, k := range n.kids {
+		var kids []*node
+		if n.op == "and" {
+			kids = n.andTerms()
+		} else {
+			kids = n.orAlts()
+		}
+		// the folder: a constant operand equal to the absorbing value makes the
+		// whole and/or that constant, whatever the other operands are
+		for _, k := range kids {
+			if !k.hasCol() {
+				cw := &walkT{row: w.row}
+				if v, ok := cw.eval(k); ok && v == stop {
+					return stop, true
+				}
+			}
+		}
+		// After a raise the remaining operands are still walked (flags only):
+		// folding and conjunct-wise evaluation may reach them.
+		raised := false
+		for _, k := range kids {
 			v, ok := w.eval(k)
 			if !ok || !isBool(v) {
-				return nil, false
+				raised = true
+				continue
 			}
-			if v == stop {
+			if v == stop && !raised {
 				return stop, true
 			}
 		}
+		if raised {
+			return nil, false
+		}
 		return core.SuBool(stop != core.True), true
+	case "&", "|":
+		return w.bitop(n)
 	case "?:":
 		c, ok := w.eval(n.kids[0])
 		if !ok || !isBool(c) {
+			w.eval(n.kids[1]) // flags only
+			w.eval(n.kids[2])
 			return nil, false
 		}
 		if c == core.True {
@@ -503,12 +558,16 @@ func (w *walkT) eval(n *node) (core.Value, bool) {
 		return w.eval(n.kids[2])
 	}
 	vals := make([]core.Value, len(n.kids))
+	failed := false
 	for i, k := range n.kids {
 		v, ok := w.eval(k)
 		if !ok {
-			return nil, false
+			failed = true // keep walking the other operands (flags only)
 		}
 		vals[i] = v
+	}
+	if failed {
+		return nil, false
 	}
 	constant := !n.hasCol()
 	switch n.op {
@@ -526,22 +585,35 @@ func (w *walkT) eval(n *node) (core.Value, bool) {
 		}
 		return w.call("x0"+op+strings.Join(ps, ", ")+")", vals...)
 	case "chain+", "chain*", "$":
-		var sb strings.Builder
+		var sb, alt strings.Builder
 		sb.WriteString("x0")
+		alt.WriteString("x0")
 		for i := 1; i < len(vals); i++ {
 			sign := "$"
 			if n.op != "$" {
 				sign = string(n.signs[i-1])
 			}
 			fmt.Fprintf(&sb, " %s x%d", sign, i)
-			if sign == "-" && vals[i].Equal(minInt64Val) {
-				w.minusMin = true
+			if sign == "-" {
+				fmt.Fprintf(&alt, " + (-x%d)", i)
+			} else {
+				fmt.Fprintf(&alt, " %s x%d", sign, i)
 			}
 		}
 		if n.op == "chain*" && strings.Contains(n.signs, "/") && divisorFirst(n) {
 			w.divFirst = true
 		}
-		return w.call(sb.String(), vals...)
+		v, ok := w.call(sb.String(), vals...)
+		if n.op == "chain+" && strings.Contains(n.signs, "-") && !constant {
+			// what the query evaluator computes: x + (-y)
+			v2, ok2 := w.call(alt.String(), vals...)
+			// (also another number representation: it decides between exact
+			// integer and 16 digit decimal arithmetic further up)
+			if ok != ok2 || (ok && (!sameValue(v, v2) || isDnum(v) != isDnum(v2))) {
+				w.subAsAdd = true
+			}
+		}
+		return v, ok
 	case "call":
 		if n.name == "Max" || n.name == "Min" || n.name == "Cmp" {
 			w.pair("is", constant, vals[0], vals[1]) // compare without the "" exception, but F7 applies
@@ -564,4 +636,17 @@ func (w *walkT) eval(n *node) (core.Value, bool) {
 	return w.call(tmpl, vals...)
 }
 
-var minInt64Val = core.Int64Val(-1 << 63)
+func isDnum(v core.Value) bool {
+	_, ok := v.(core.SuDnum)
+	return ok
+}
+
+// merge ors the flags of another walk into w.
+func (w *walkT) merge(o *walkT) {
+	w.documented = w.documented || o.documented
+	w.lossy = w.lossy || o.lossy
+	w.subAsAdd = w.subAsAdd || o.subAsAdd
+	w.divFirst = w.divFirst || o.divFirst
+	w.negPrefix = w.negPrefix || o.negPrefix
+	w.bitShort = w.bitShort || o.bitShort
+}
